@@ -142,6 +142,19 @@ func namedSpecs() []spec.Spec {
 			{Op: "AllowAttrs", Names: []string{"id"}, Re: `^[a-z]+$`, NoAttrs: true, Scope: "on", On: []string{"span", "a"}},
 			{Op: "AllowAttrs", Names: []string{"name"}, NoAttrs: true, Scope: "matching", OnRe: reMyX},
 		}},
+		// every forcing / switching option set, none of the elements they concern allowed: an option must never admit anything
+		{Name: "options-without-elements", Base: "new", Calls: []C{
+			els("b", "p"),
+			{Op: "RequireSandboxOnIFrame", Ints: []int{2, 10}}, opt("RequireCrossOriginAnonymous", true),
+			opt("RequireNoFollowOnLinks", true), opt("RequireNoReferrerOnLinks", true), opt("AddTargetBlankToFullyQualifiedLinks", true),
+			{Op: "AllowURLSchemes", Names: []string{"http", "https"}}, opt("AllowRelativeURLs", true), {Op: "AllowDataAttributes"},
+			{Op: "AllowStyles", Names: []string{"color"}, Scope: "global"}, {Op: "RewriteSrc", Fn: "proxy"},
+		}},
+		// a zero-value Policy{} whose options are set before the first call that initialises its tables
+		{Name: "literal-options-first", Base: "literal", Calls: []C{
+			opt("AddSpaceWhenStrippingTag", true), {Op: "AllowComments"}, opt("AllowRelativeURLs", true), opt("RequireNoFollowOnLinks", true),
+			els("b", "p"), attrsOn([]string{"href"}, "", "a"),
+		}},
 		{Name: "everything-named", Base: "new", Calls: []C{
 			{Op: "AllowElementsMatching", Re: `^[a-z0-9-]+$`},
 			attrsGlob([]string{"id", "class", "title", "href", "src", "name"}, ""),
